@@ -14,7 +14,9 @@ MISUSE = ["kwonly_param__ARGS", "kwonly_param__KWARGS", "varkw_param__KWARGS", "
           "error_callable_object", "error_partial", "error_builtin",
           # the same misuse on a disabled decorator (enabled=False, the default under -O)
           "disabled_error_int", "disabled_error_callable_object", "disabled_invariant_extra_param",
-          "disabled_invariant_coroutine_condition"]
+          "disabled_invariant_coroutine_condition", "disabled_snapshot_no_params", "disabled_snapshot_two_params",
+          # the reserved names of postconditions as variadic parameters
+          "varpos_param_result_with_post", "varkw_param_OLD_with_post"]
 DECOS = ["require", "ensure", "invariant"]
 TARGETS = ["function", "async_function", "method", "staticmethod", "classmethod", "property_getter"]
 
@@ -103,6 +105,25 @@ def _check(m: str, deco: str, target: str) -> Tuple[str, bool]:
             run(call, 1)
         except TypeError as err:
             return "TypeError at call", name in str(err)
+        return "accepted", False
+    if m in ("varpos_param_result_with_post", "varkw_param_OLD_with_post"):
+        if deco != "ensure" or target == "property_getter":
+            return "n/a", True
+        name = "result" if m == "varpos_param_result_with_post" else "OLD"
+        f = post(_mk(sp + "x, " + ("*result" if name == "result" else "**OLD"), is_async))
+        _, call = _wrap_target(f, target)
+        try:
+            run(call, 1)
+        except TypeError as err:
+            return "TypeError at call", name in str(err)
+        return "accepted", False
+    if m in ("disabled_snapshot_no_params", "disabled_snapshot_two_params"):
+        if deco != "ensure" or target != "function":
+            return "n/a", True
+        try:
+            icontract.snapshot((lambda: 1) if m == "disabled_snapshot_no_params" else (lambda a, b: 1), enabled=False)
+        except ValueError:
+            return "ValueError at definition", True
         return "accepted", False
     if m == "param_result_pre_only_is_fine":
         if deco != "require" or target == "property_getter":
